@@ -793,3 +793,63 @@ META["C17"]["text"] += " The C++ driver keeps ONE result vector (and a second ha
 META["C18"]["text"] += " Unions of one to four members (the three representations of the small vector behind a union) are interned through iterators with and without an exact size."
 META["C20"]["text"] += " Real solves over packages with 18-45 candidates and a favored candidate are validated by TLC against Universe!Sorted (the sorted list as the solver receives it; rule C07_ClauseCandidateOrder)."
 META["C13"]["text"] += " The replay follows whole histories: several solves on one solver, the model keeping what the cache keeps (LazyCdclW!SolveAgain)."
+
+
+# ---------------------------------------------------------------------------
+# Apalache: inductive invariants (unbounded histories) for the Mapping and the
+# reference-count protocol models
+# ---------------------------------------------------------------------------
+def apalache_inductive(prop, module, timeout=1500):
+    """Returns (info dict, violations).  NOT-INDUCTIVE = the model breaks its invariant
+    (reported like a TLC counterexample); tool trouble is recorded and not fatal: the TLC
+    checks of the same invariants do not depend on it."""
+    import subprocess
+    env = dict(os.environ)
+    env["APALACHE_TIMEOUT"] = str(timeout)
+    t = time.time()
+    try:
+        r = subprocess.run([os.path.join(vlib.SPEC, "apalache", "check.sh"), module], capture_output=True, text=True,
+                           env=env, timeout=2 * timeout + 60)
+    except subprocess.TimeoutExpired:
+        return {"apalache_" + module: "timeout"}, []
+    if r.returncode == 0 and "INDUCTIVE " + module in r.stdout:
+        vlib.log(f"[{prop}] Apalache: IndInv of {module} is inductive ({time.time()-t:.0f}s)")
+        return {"apalache_" + module: "IndInv inductive (Init => IndInv, IndInv /\\ Next => IndInv')",
+                "apalache_seconds": round(time.time() - t, 1)}, []
+    if r.returncode == 1:
+        d = os.path.join(vlib.REPLAYS, prop)
+        os.makedirs(d, exist_ok=True)
+        path = os.path.join(d, f"apalache_{module}_counterexample.txt")
+        open(path, "w").write(r.stdout[-6000:])
+        return {"apalache_" + module: "NOT inductive"}, [(f"Apalache: IndInv of {module} is not inductive", path)]
+    vlib.log(f"[{prop}] Apalache did not complete on {module}: {(r.stdout + r.stderr)[-300:]}")
+    return {"apalache_" + module: "not completed"}, []
+
+
+_c19_tlc = CHECKS["C19"]
+_c17_tlc = CHECKS["C17"]
+
+
+def _with_apalache(inner, module):
+    def run(prop, tier, seed, t0):
+        rc = inner(prop, tier, seed, t0)
+        info, viol = apalache_inductive(prop, module)
+        ev = json.load(open(os.path.join(vlib.EVIDENCE, f"{prop}.json")))
+        ev["coverage"].update(info)
+        for (msg, path) in viol:
+            print(f"VIOLATION property={prop} replay={path}")
+            vlib.log("  " + msg)
+            ev["violations"] = ev.get("violations", 0) + 1
+            rc = 1
+        ev["wall_s"] = round(time.time() - t0, 1)
+        json.dump(ev, open(os.path.join(vlib.EVIDENCE, f"{prop}.json"), "w"), indent=1)
+        return rc
+    return run
+
+
+CHECKS["C19"] = _with_apalache(_c19_tlc, "MappingInd")
+CHECKS["C17"] = _with_apalache(_c17_tlc, "CowRefInd")
+META["C19"]["text"] += " For histories of ANY length and arbitrary id values, Apalache shows LenIsCount and MaxBounds inductive on the same transition relation (spec/apalache/MappingInd.tla)."
+META["C19"]["technique"] += "; inductive invariant with Apalache"
+META["C17"]["text"] += " The reference-count protocol (RefCountExact, NoDangling, NoLeak, StaticIntact) is additionally shown inductive with Apalache for histories of any length over arbitrary handle and buffer ids (spec/apalache/CowRefInd.tla: CowVector.tla with the element data erased)."
+META["C17"]["technique"] += "; inductive invariant of the reference-count protocol with Apalache"
